@@ -38,7 +38,7 @@ PROP_UNITS = {
     'C05': ['trie', 'render', 'rep', 'splice'],
     'C06': ['render', 'format', 'trie', 'rep', 'nested', 'indent'],
     'C07': ['expr', 'elim', 'matrix', 'regexp', 'builder', 'split', 'escaper', 'caseconv', 'rep', 'splice', 'gates', 'render', 'format', 'order', 'dfa', 'minimize', 'trie', 'cli', 'escape', 'classify', 'nested', 'indent'],
-    'C08': ['render', 'expr', 'regexp', 'format'],
+    'C08': ['render', 'expr', 'regexp', 'format', 'indent'],
     'C09': ['tables', 'classify'],
     'C10': ['builder', 'regexp', 'gates', 'order', 'dfa'],
     'C11': ['escape', 'builder', 'format', 'nested'],
